@@ -21,10 +21,10 @@ def fuzz(pkg, target, secs, parallel=8):
 
 
 CHECKS = {
-    "C01": {"units": [rapid("freex", "TestC01Free", 1500, 800, 16), rapid("csyncx", "TestC01", 10000, 100000)]},
+    "C01": {"units": [rapid("freex", "TestC01Free", 1500, 800, 16), rapid("csyncx", "TestC01", 10000, 100000), rapid("csyncx", "TestC01ManyReaders", 15, 30, 2)]},
     "C02": {"units": [rapid("freex", "TestC02Free", 1000, 600, 16), rapid("csyncx", "TestC02", 10000, 100000)]},
     "C03": {"units": [rapid("freex", "TestC03Free", 1000, 600, 16), rapid("bcastx", "TestC03", 10000, 100000)]},
-    "C04": {"units": [rapid("routinex", "TestC04", 10000, 60000)]},
+    "C04": {"units": [rapid("freex", "TestC04Free", 1000, 600, 16), rapid("routinex", "TestC04", 10000, 60000)]},
     "C05": {"units": [rapid("freex", "TestC05Free", 300, 300, 16), rapid("routinex", "TestC05", 8000, 60000)]},
     "C12": {"units": [rapid("lifox", "TestC12Controlled", 6000, 10000), rapid("lifox", "TestC12Free", 1000, 1000, 16), rapid("lifox", "TestC12Burst", 400, 400, 8)]},
     "C13": {"units": [rapid("racex", "TestC13", 2500, 5000, 16, race=True, shrinktime="5s")]},
